@@ -230,6 +230,13 @@ struct Dumper {
         if (cf->isDeclaration()) os << ",\"decl\":true";
       } else os << ",\"callee\":null";
       os << ",\"nargs\":" << cb->arg_size();
+      os << ",\"ro\":[";
+      for (unsigned i = 0; i < cb->arg_size(); i++) {
+        if (i) os << ",";
+        bool ro = cb->onlyReadsMemory(i) || cb->onlyReadsMemory();
+        os << (ro ? "true" : "false");
+      }
+      os << "]";
     }
     if (auto *ev = dyn_cast<ExtractValueInst>(&I)) { os << ",\"idxs\":["; bool f = true; for (unsigned i : ev->indices()) { if (!f) os << ","; f = false; os << i; } os << "]"; }
     if (auto *iv = dyn_cast<InsertValueInst>(&I)) { os << ",\"idxs\":["; bool f = true; for (unsigned i : iv->indices()) { if (!f) os << ","; f = false; os << i; } os << "]"; }
@@ -344,6 +351,15 @@ int main(int argc, char **argv) {
     F.removeFnAttr(Attribute::NoInline);
     if (!wanted(F.getName())) F.addFnAttr(Attribute::AlwaysInline);
   }
+  // exact definitions: linkonce_odr bodies are not trusted by attribute inference; this module is
+  // analysed in isolation, so every non-wrapper definition is made internal
+  for (auto &F : *M) {
+    if (F.isDeclaration() || wanted(F.getName())) continue;
+    F.setComdat(nullptr);
+    F.setLinkage(GlobalValue::InternalLinkage);
+    F.setVisibility(GlobalValue::DefaultVisibility);
+    F.setDSOLocal(true);
+  }
   if (!noopt) {
     LoopAnalysisManager LAM; FunctionAnalysisManager FAM; CGSCCAnalysisManager CGAM; ModuleAnalysisManager MAM;
     PassBuilder PB;
@@ -351,7 +367,7 @@ int main(int argc, char **argv) {
     PB.crossRegisterProxies(LAM, FAM, CGAM, MAM);
     ModulePassManager MPM;
     std::string U = "function(loop-simplify,lcssa,loop-rotate,indvars,loop-unroll<O3>,sroa,early-cse,instcombine,simplifycfg)";
-    std::string pipe = "function(sroa,early-cse,simplifycfg),always-inline,cgscc(inline),function(sroa,early-cse,instcombine,simplifycfg)," + U + "," + U + "," + U + "," + U + ",function(sroa,early-cse,instcombine,simplifycfg,adce)";
+    std::string pipe = "function(sroa,early-cse,simplifycfg),always-inline,cgscc(inline),function(sroa,early-cse,instcombine,simplifycfg)," + U + "," + U + "," + U + "," + U + ",function(sroa,early-cse,instcombine,simplifycfg,adce),cgscc(function-attrs),rpo-function-attrs";
     if (noUnroll) pipe = "function(sroa,early-cse,simplifycfg),always-inline,cgscc(inline),function(sroa,early-cse,instcombine,simplifycfg),function(sroa,early-cse,instcombine,simplifycfg,adce)";
     if (auto e = PB.parsePassPipeline(MPM, pipe)) { errs() << "irx: pipeline: " << toString(std::move(e)) << "\n"; return 2; }
     MPM.run(*M, MAM);
